@@ -195,6 +195,34 @@ def run_shard(spec, res):
                                 except Exception as exn:  # noqa: BLE001
                                     res.count("frontend_raised_other:" + type(exn).__name__)
                                     res.setadd("frontend_other_exceptions", f"{cls.__name__}: {exn!r}"[:160])
+                if it % 3 == 0 and cls in (claripy.SolverReplacement, claripy.SolverHybrid, claripy.Solver, claripy.SolverComposite):
+                    # solvers made from this one: what it has worked out about its own constraints (replacements, bounds,
+                    # cached models) must not answer for a solver that does not hold those constraints
+                    base_ = s
+                    other = cls()
+                    other.add([bvb.build(["eq", G.bvs("a", w), ["bvv", rng.getrandbits(w), w]])])
+                    derived = []
+                    try:
+                        derived.append(("blank_copy", base_.blank_copy()))
+                        derived.append(("merge", base_.merge([other], [claripy.true(), claripy.true()])[1]))
+                        derived += [("split", p_) for p_ in base_.split()[:3]]
+                        derived.append(("combine", cls().combine([other])))
+                    except claripy.errors.ClaripyError as exn:
+                        res.count("frontend_derive_raised:" + type(exn).__name__)
+                    for how, ds_ in derived:
+                        truth.wrap_frontend(ds_)
+                        res.count("frontend_derived_solvers:" + how)
+                        for e in qs[:8]:
+                            for which in ("is_true", "is_false"):
+                                for kw_ in ({}, {"exact": False}) if cls is claripy.SolverHybrid else ({},):
+                                    try:
+                                        getattr(ds_, which)(e, **kw_)
+                                    except claripy.errors.ClaripyError as exn:
+                                        res.count("frontend_raised:" + type(exn).__name__)
+                                    except Exception as exn:  # noqa: BLE001
+                                        res.count("frontend_raised_other:" + type(exn).__name__)
+                                        res.setadd("frontend_other_exceptions", f"{cls.__name__}/{how}: {exn!r}"[:160])
+                    keep += [d_ for _, d_ in derived] + [other]
                 keep += qs + cons
                 res.count("frontend_histories")
                 res.count("frontend_class:" + cls.__name__)
